@@ -178,6 +178,18 @@ def gen_designed(rng, tier):
         e = {'length': L, 'variety': rng.choice(list(LIB_FIBRES)), 'loss_coef': rng.choice([0.2, 0.2, 0.22, 0.19, 0.25])}
         if rng.random() < 0.6:
             e['pmd_coef'] = rng.choice([0.4e-15, 2.0e-15, 3.1e-15, round(rng.uniform(0.1, 3), 3) * 1e-15])
+        # what belongs to one place of the fibre (fixes 90cb5026 / 02632740: kept once when the design cuts the fibre)
+        if rng.random() < 0.3:
+            nk = rng.randint(2, 5)
+            freqs = [190.5e12 + (197.0e12 - 190.5e12) * j / (nk - 1) for j in range(nk)]
+            e['loss_coef'] = FB._table(rng, freqs, [round(rng.uniform(0.18, 0.26), 4) for _ in range(nk)])
+        if rng.random() < 0.35:
+            e['att_in'] = rng.choice([1.0, 2.0, 0.5, round(rng.uniform(0.1, 4), 2)])
+        if rng.random() < 0.4:
+            # positions with a 4th decimal 7: never on a boundary k L / n of the cut
+            e['lumped_losses'] = [{'position': round(rng.uniform(0.02, 0.98) * L, 3) + 0.0007,
+                                   'loss': rng.choice([0.5, 1.0, 2.0, round(rng.uniform(0.1, 2), 2)])}
+                                  for _ in range(rng.randint(1, 3))]
         line.append(e)
     return {'kind': 'designed', 'line': line}
 
@@ -569,10 +581,12 @@ def _line_topology(fibres):
     els = [nets.trx('trx A'), nets.trx('trx B'), nets.roadm('roadm A'), nets.roadm('roadm B')]
     cxs = [nets.cx('trx A', 'roadm A'), nets.cx('roadm A', 'trx A'), nets.cx('trx B', 'roadm B'), nets.cx('roadm B', 'trx B')]
     line = []
-    for uid, L, variety, loss, pmd in fibres:
-        extra = {'loss_coef': loss}
+    for uid, L, variety, loss, pmd, *more in fibres:
+        extra = {'loss_coef': copy.deepcopy(loss)}
         if pmd is not None:
             extra['pmd_coef'] = pmd
+        if more:
+            extra.update(copy.deepcopy(more[0]))
         line.append(nets.fiber(uid, L, variety, **extra))
     nets.chain(els, cxs, 'roadm A', 'roadm B', line)
     nets.chain(els, cxs, 'roadm B', 'roadm A', [nets.fiber('back', 80.0)])
@@ -588,15 +602,43 @@ def _design_and_propagate(topology):
     net, req, _ = designed_network(eq, net, source='trx A', destination='trx B')
     path = compute_constrained_path(net, req)
     si = propagate(path, req, eq)
-    return path, si
+    return path, si, req, eq
+
+
+def _propagate_recording(path, req, eq):
+    """the loop of request.propagate, recording the power per channel before and behind every Fiber"""
+    from gnpy.core.elements import Roadm, Fiber
+    from gnpy.core.info import create_input_spectral_information
+    from gnpy.topology.request import filter_si
+    si = create_input_spectral_information(f_min=req.f_min, f_max=req.f_max, roll_off=req.roll_off,
+                                           baud_rate=req.baud_rate, spacing=req.spacing, tx_osnr=req.tx_osnr,
+                                           tx_power=req.tx_power, delta_pdb=req.offset_db)
+    si = filter_si(path, eq, si)
+    rec = []
+    for i, el in enumerate(path):
+        before = np.array(si.pch)
+        if isinstance(el, Roadm):
+            si = el(si, degree=path[i + 1].uid, from_degree=path[i - 1].uid)
+        else:
+            si = el(si)
+        if isinstance(el, Fiber):
+            rec.append((el, 10 * np.log10(before / np.array(si.pch))))
+    return si, rec
 
 
 def run_designed(case, drv):
     from gnpy.core.elements import Fiber, Edfa, Roadm
     res = Result()
     line = case['line']
-    orig = [(f'f{i}', e['length'], e['variety'], e['loss_coef'], e.get('pmd_coef')) for i, e in enumerate(line)]
-    path, si = _design_and_propagate(_line_topology(orig))
+    orig = [(f'f{i}', e['length'], e['variety'], e['loss_coef'], e.get('pmd_coef'),
+             {k: e[k] for k in ('att_in', 'lumped_losses') if k in e}) for i, e in enumerate(line)]
+    try:
+        path, si, req, eq = _design_and_propagate(_line_topology(orig))
+    except Exception as e:  # noqa
+        res.fail(f'rejected: the design / propagation of a well-formed link (fibres {[x["length"] for x in line]} km, '
+                 f'padding / lumped losses / loss tables allowed on long fibres) raised {err_kind(e)}: {str(e)[:160]}')
+        res.stats.update({'kind_designed': 1, 'designed_rejected': 1})
+        return res
     freq = [float(x) for x in si.frequency]
     nch = len(freq)
     got = _acc(si)
@@ -661,12 +703,38 @@ def run_designed(case, drv):
         if abs(got['pdl'][c] - pdl) > 1e-9 * max(pdl, 1e-15):
             res.fail(f'PDL quadrature: receiver sees {got["pdl"][c]!r} dB, expected {pdl!r} dB')
             break
+    # ---- monitor: link-level loss budget. The spans a fibre was cut into attenuate every channel, together, by the padding
+    # and the lumped losses of the ORIGINAL fibre (each once), its length x loss coefficient at the channel's frequency,
+    # and the connector losses the design gave to every span
+    si_r, rec = _propagate_recording(path, req, eq)
+    if not (np.array_equal(si_r.pch, si.pch) and np.array_equal(si_r.latency, si.latency)):
+        res.mismatch('request.propagate vs recorded walk', [float(x) for x in si.pch[:3]], [float(x) for x in si_r.pch[:3]])
+    for i, e in enumerate(line):
+        mine = [(el, att) for el, att in rec if el.uid.split('_(')[0] == f'f{i}']
+        total = sum(att for _, att in mine)
+        conn = sum(el.params.con_in + el.params.con_out for el, _ in mine)
+        # padding: the user's att_in, once; the design may only pad an UNCUT short span up to the minimum span loss
+        pad = sum(el.params.att_in for el, _ in mine)
+        if len(mine) > 1 and abs(pad - e.get('att_in', 0)) > 1e-12:
+            res.fail(f'link loss budget: the {len(mine)} spans of fibre f{i} carry {pad} dB of padding in total, the fibre was '
+                     f'given {e.get("att_in", 0)} dB')
+        if pad < e.get('att_in', 0) - 1e-12:
+            res.fail(f'link loss budget: fibre f{i} was given {e["att_in"]} dB of padding, the designed span has {pad} dB')
+        p_e = params(e, e['length'] * 1e3)
+        for c in (0, nch // 2, nch - 1):
+            want = (pad + conn + e['length'] * FB.loss_db_per_km(p_e, freq[c])
+                    + sum(x['loss'] for x in e.get('lumped_losses', [])))
+            if abs(float(total[c]) - want) > 1e-8:
+                res.fail(f'link loss budget: the {len(mine)} span(s) of fibre f{i} ({e["length"]} km) attenuate channel {c} by '
+                         f'{float(total[c]):.9f} dB; padding + connectors as designed + length x loss coefficient + lumped '
+                         f'losses of the original fibre = {want:.9f} dB')
+                break
     # ---- the same link given as explicit pre-cut spans
     pre = []
     for i, e in enumerate(line):
         n = len(subs[f'f{i}'])
         pre += [(f'f{i}x{j}', e['length'] / n, e['variety'], e['loss_coef'], e.get('pmd_coef')) for j in range(n)]
-    path2, si2 = _design_and_propagate(_line_topology(pre))
+    path2, si2, _, _ = _design_and_propagate(_line_topology(pre))
     got2 = _acc(si2)
     n1 = sum(isinstance(el, Fiber) for el in path)
     n2 = sum(isinstance(el, Fiber) for el in path2)
@@ -683,6 +751,12 @@ def run_designed(case, drv):
     res.stats.update({'kind_designed': 1, f'designed_fibres_{len(line)}': 1, 'designed_fibres_split': nsplit,
                       'designed_spans_total': n1, 'designed_mixed_long_short': int(0 < nsplit < len(line)),
                       'designed_own_pmd_coef': int(any('pmd_coef' in e for e in line)),
+                      'designed_long_with_loss_table': sum(1 for i, e in enumerate(line) if isinstance(e['loss_coef'], dict)
+                                                           and len(subs[f'f{i}']) > 1),
+                      'designed_long_with_padding': sum(1 for i, e in enumerate(line) if e.get('att_in')
+                                                        and len(subs[f'f{i}']) > 1),
+                      'designed_long_with_lumped': sum(1 for i, e in enumerate(line) if e.get('lumped_losses')
+                                                       and len(subs[f'f{i}']) > 1),
                       'designed_max_spans_per_fibre': max(len(v) for v in subs.values())})
     return res
 
@@ -954,9 +1028,14 @@ def shrink_candidates(case):
                 del c['line'][i]
                 yield c
         for i, e in enumerate(case['line']):
-            if 'pmd_coef' in e:
+            for key in ('pmd_coef', 'att_in', 'lumped_losses'):
+                if key in e:
+                    c = copy.deepcopy(case)
+                    del c['line'][i][key]
+                    yield c
+            if isinstance(e['loss_coef'], dict):
                 c = copy.deepcopy(case)
-                del c['line'][i]['pmd_coef']
+                c['line'][i]['loss_coef'] = 0.2
                 yield c
             for L in (151.0, 300.0, 80.0):
                 if e['length'] > L:
